@@ -14,3 +14,4 @@ import Props.C16
 import Props.C11
 import Props.C12
 import Props.C05
+import Props.C13
